@@ -16,9 +16,20 @@ exec-ed, wrapped by the real boltons.funcutils.wraps / update_wrapper, and compa
                       iff inspect.Signature.bind of the reference signature accepts, and what reaches the wrapper,
                       bound against the reference signature with defaults applied, equals the bound call.
   Coroutine functions are driven with send(None).
+* defaults            a default of the product must be the very object the wrapped function has on that parameter
+                      (or, for int/float/bool/complex/str/bytes/None, a value of the same type that compares equal):
+                      1, 1.0 and True, or two separate empty lists, are different defaults.  Part "defaults" gives the
+                      defaulted positional parameters every assignment of values from a pool of such look-alikes
+                      (and from a pool of falsy values) and removes / adds parameters around them.
+* wrapped function    part "metadata" also wraps functions that were decorated before: functools.update_wrapper
+  decorated before    over a function of the other kind (sync facade of an async def and vice versa), over one with
+                      another signature, and the product of an earlier boltons wraps(..., injected=[p]).
+* forms               injected=p as str as well as [p]; injected/expected given explicitly as None / [] / () / {};
+                      the decorator returned by wraps(...) is applied a second time: same own signature again.
 
 Nothing is sampled.  VERIF_SEED only chooses which cases are written as samples.
 """
+import functools
 import inspect
 import itertools
 import signal
@@ -41,6 +52,13 @@ VARIANT_BUDGET_S = 120    # per (function, way of wrapping) guard against a hang
 
 ANN_CYCLE = (int, str, 'Fwd', float, bytes)
 RET_ANN = dict
+
+# default values that compare equal without being the same default (part "defaults"); the two lists of a pool are
+# created per generated function
+ONE_F = 1.0
+ATOMIC = (int, float, bool, complex, str, bytes, type(None))
+POOLS = {'equal': lambda: [1, ONE_F, [], []], 'falsy': lambda: [None, 0, False],                  # quick
+         'equal+': lambda: [1, ONE_F, True, [], []], 'falsy+': lambda: [None, 0, False, '']}      # thorough
 
 
 class Sentinel:
@@ -75,7 +93,30 @@ def spec_params(spec):
     return out
 
 
-def default_value(spec, name, kind, idx):
+def same(a, b):
+    """Strict sameness of two values: the same object, or values of the same immutable atomic type that compare
+    equal, or tuples / dicts (argument packs are re-created per call) of pairwise same values.  1 / 1.0 / True are
+    not the same, neither are two separate lists."""
+    if a is b:
+        return True
+    if type(a) is not type(b):
+        return False
+    if isinstance(a, ATOMIC):
+        return a == b
+    if type(a) is tuple:
+        return len(a) == len(b) and all(same(x, y) for x, y in zip(a, b))
+    if type(a) is dict:
+        return a.keys() == b.keys() and all(same(a[k], b[k]) for k in a)
+    return False
+
+
+def default_value(spec, name, kind, idx, pool=None):
+    if pool is not None:
+        # part "defaults": spec['dpat'] gives the pool index of each defaulted positional parameter in order,
+        # spec['kdpat'] that of each keyword-only parameter
+        if kind == 'pos':
+            return pool[spec['dpat'][idx - (spec['npos'] - spec['ndef'])]]
+        return pool[spec['kdpat'][idx]]
     if spec.get('dvals', 'int') == 'int':
         return (10 if kind == 'pos' else 20) + idx
     # 'mixed': None, identity-only objects and a mutable value
@@ -104,6 +145,7 @@ def make_function(spec):
     defaults = {}
     seen_star = False
     pos_i = kwo_i = 0
+    pool = POOLS[spec['dpool']]() if spec.get('dpool') else None
     for index, (name, kind, has_d) in enumerate(params):
         text = name
         if spec.get('kind', 'def') == 'def' and annotated(spec, index):
@@ -122,7 +164,7 @@ def make_function(spec):
                 seen_star = True
             idx = pos_i if kind == 'pos' else kwo_i
             if has_d:
-                defaults[name] = ns['D_' + name] = default_value(spec, name, kind, idx)
+                defaults[name] = ns['D_' + name] = default_value(spec, name, kind, idx, pool)
                 text += ('=' if ': ' not in text else ' = ') + 'D_' + name
             body.append(name)
             if kind == 'pos':
@@ -148,9 +190,54 @@ def make_function(spec):
     if doc != 'none':
         f.__doc__ = DOCS[doc]
     names = {'pos': [n for n, k, _ in params if k == 'pos'], 'kwo': [n for n, k, _ in params if k == 'kwo'],
-             'va': spec['va'], 'vk': spec['vk'], 'defaults': defaults, 'src': src,
-             'sig': inspect.signature(f)}        # taken before anything wraps f
+             'va': spec['va'], 'vk': spec['vk'], 'defaults': defaults, 'src': src}
+    if spec.get('prior'):
+        f = decorated_before(f, names, spec)
+    # taken before anything (of this check) wraps f; the function's own signature - what calls of f are checked
+    # against - also when f carries a __wrapped__ from an earlier decoration
+    names['sig'] = inspect.signature(f, follow_wrapped=False)
     return f, names
+
+
+PRIORS = ('functools_other_kind', 'functools_other_signature', 'boltons_injected')
+
+
+def decorated_before(f, names, spec):
+    """The function to wrap is itself the result of an earlier decoration (it has __wrapped__ and a copied __dict__):
+    functools_other_kind       functools.update_wrapper(f, g), g the same signature but async where f is sync and
+                               vice versa (a blocking facade of a coroutine function / an async adapter)
+    functools_other_signature  functools.update_wrapper(f, g), g of the same kind with other parameters
+    boltons_injected           f = boltons wraps(g, injected=[last named parameter])(recorder), g the generated
+                               function (plain wraps when g has no named parameter)"""
+    prior = spec['prior']
+    is_async = bool(spec['async'])
+    if prior == 'functools_other_kind':
+        g, _ = make_function(dict(spec, prior=None, **{'async': 0 if is_async else 1}))
+        names['src'] += '# then: functools.update_wrapper(target_function, <%s def with the same parameters>)\n' % (
+            'a plain' if is_async else 'an async')
+        return functools.update_wrapper(f, g)
+    if prior == 'functools_other_signature':
+        ns = {'__name__': MODNAME}
+        exec(compile('%sdef target_function(other, *more, flag=5):\n    """Another docstring."""\n    return None\n'
+                     % ('async ' if is_async else ''), '<c13:other>', 'exec'), ns)
+        names['src'] += '# then: functools.update_wrapper(target_function, <%sdef (other, *more, flag=5)>)\n' % (
+            'async ' if is_async else '')
+        return functools.update_wrapper(f, ns['target_function'])
+    if prior == 'boltons_injected':
+        from boltons import funcutils
+        if is_async:
+            async def recorder(*a, **k):
+                return ('recorded', a, tuple(sorted(k.items())))
+        else:
+            def recorder(*a, **k):
+                return ('recorded', a, tuple(sorted(k.items())))
+        named = names['pos'] + names['kwo']
+        names['src'] += '# then: target_function = boltons.funcutils.wraps(target_function%s)(recorder)\n' % (
+            ', injected=[%r]' % named[-1] if named else '')
+        if named:
+            return funcutils.wraps(f, injected=[named[-1]])(recorder)
+        return funcutils.wraps(f)(recorder)
+    raise AssertionError(prior)
 
 
 DOCS = {
@@ -203,6 +290,34 @@ def metadata_family(tier):
                 s = dict(shape, ann=ann, dvals='int', doc=doc, kind=kind)
                 s['async'] = is_async
                 specs.append(s)
+    for shape in shapes:
+        for prior in PRIORS:
+            for is_async in (0, 1):
+                s = dict(shape, ann='none', dvals='int', doc='line', kind='def', prior=prior)
+                s['async'] = is_async
+                specs.append(s)
+    return specs
+
+
+def defaults_family(tier):
+    """Part "defaults": 2..3 (thorough 4) positional-or-keyword parameters of which the last 2..n have defaults, each
+    default drawn from a pool - every assignment; with and without a defaulted keyword-only parameter (and, in
+    thorough for <= 3 positional parameters, **kwargs)."""
+    quick = tier == 'quick'
+    specs = []
+    for npos in (2, 3) if quick else (2, 3, 4):
+        for ndef in range(2, npos + 1):
+            for pool in ('equal', 'falsy') if quick else ('equal+', 'falsy+'):
+                size = len(POOLS[pool]())
+                for kwo in ([], [1]):
+                    if quick and pool == 'falsy' and kwo:
+                        continue
+                    for vk in (0,) if quick or npos == 4 else (0, 1):
+                        for pat in itertools.product(range(size), repeat=ndef):
+                            specs.append({'npos': npos, 'ndef': ndef, 'va': 0, 'kwo': kwo, 'vk': vk, 'ann': 'none',
+                                          'async': 0, 'dvals': 'int', 'dpool': pool, 'dpat': list(pat),
+                                          'kdpat': [1] * len(kwo)})
+    specs.sort(key=lambda s: (s['npos'] + len(s['kwo']) + s['vk'], not s['dpool'].startswith('equal')))
     return specs
 
 
@@ -213,6 +328,7 @@ EXTRA_LIMIT = 4          # thorough: two added parameters / injected+expected on
 LIST_CALLS_LIMIT = {'quick': 3, 'thorough': EXTRA_LIMIT}   # injected lists get all call shapes for <= this many
                                                           # named parameters, beyond: signature and metadata only
 LIST_FORMS_LIMIT = 2     # injected lists are also passed as tuple / iterator for <= 2 named parameters
+SECOND_LIMIT = 2         # the decorator is applied a second time for functions with <= 2 named parameters
 
 
 def injected_names(variant):
@@ -226,6 +342,9 @@ def injected_names(variant):
 def injected_argument(variant):
     names = injected_names(variant)
     form = variant.get('iform', 'list')
+    if form == 'str':
+        assert len(names) == 1
+        return names[0]
     if form == 'tuple':
         return tuple(names)
     if form == 'iter':
@@ -256,13 +375,32 @@ def expected_forms(tier, named=0):
     return forms
 
 
+EMPTY_FORMS = ('none', 'list', 'tuple_dict')     # injected=None, expected=None / [] , [] / (), {} given explicitly
+
+
 def variants_for(spec, names, tier, metadata_only=False):
     out = [{'api': 'wraps'}, {'api': 'update_wrapper'}]
     if metadata_only:
+        for form in EMPTY_FORMS:
+            out.append({'api': 'wraps', 'empty': form})
+        out.append({'api': 'update_wrapper', 'empty': 'list'})
         return out
     named = names['pos'] + names['kwo']
+    if spec.get('dpool'):
+        return variants_for_defaults(names, tier)
     for p in named:
         out.append({'api': 'wraps', 'injected': p})
+    # the same one name given as a str instead of a one-element list
+    for p in named:
+        v = {'api': 'wraps', 'injected': p, 'iform': 'str'}
+        if len(named) > LIST_FORMS_LIMIT:
+            v['calls'] = 'none'
+        out.append(v)
+    if named:
+        v = {'api': 'update_wrapper', 'injected': named[0], 'iform': 'str'}
+        if len(named) > LIST_FORMS_LIMIT:
+            v['calls'] = 'none'
+        out.append(v)
     for form, n, dflt in expected_forms(tier, len(named)):
         out.append({'api': 'wraps', 'expected': {'form': form, 'n': n, 'default': dflt}})
     if named:
@@ -284,11 +422,28 @@ def variants_for(spec, names, tier, metadata_only=False):
     return out
 
 
+def variants_for_defaults(names, tier):
+    """Part "defaults": the ways of wrapping that move defaults around."""
+    named = names['pos'] + names['kwo']
+    out = [{'api': 'wraps'}]
+    for p in named:
+        out.append({'api': 'wraps', 'injected': p})
+    out.append({'api': 'update_wrapper', 'injected': named[-1], 'iform': 'str'})
+    for seq in itertools.permutations(named, 2):
+        v = {'api': 'wraps', 'injected': list(seq)}
+        if len(named) > LIST_CALLS_LIMIT[tier]:
+            v['calls'] = 'none'
+        out.append(v)
+    for form, dflt in (('dict', 'eq'), ('pairs', 'eq'), ('str', 'none')):
+        out.append({'api': 'wraps', 'expected': {'form': form, 'n': 1, 'default': dflt}})
+    return out
+
+
 def expected_items(exp):
     """[(name, default-or-EMPTY)] the variant asks for."""
     if not exp:
         return []
-    d = {'none': EMPTY, 'int': EXP_INT, 'None': None}[exp['default']]
+    d = {'none': EMPTY, 'int': EXP_INT, 'None': None, 'eq': ONE_F}[exp['default']]
     items = [(NEW[i], d) for i in range(exp['n'])]
     if exp['form'] == 'pairs_mixed':
         items[0] = (NEW[0], EMPTY)
@@ -411,7 +566,7 @@ def sig_difference(own, ref_params, ref_return):
             return 'parameter names'
         return 'parameter kinds or order'
     for a, b in zip(po, pr):
-        if not (a.default is b.default or a.default == b.default):
+        if not same(a.default, b.default):
             return 'defaults'
     for a, b in zip(po, pr):
         if a.annotation != b.annotation:
@@ -463,16 +618,31 @@ class Applied:
             kw['injected'] = injected_argument(variant)
         if variant.get('expected'):
             kw['expected'] = expected_argument(variant['expected'], funcutils)
+        if variant.get('empty'):
+            kw = {'none': {'injected': None, 'expected': None}, 'list': {'injected': [], 'expected': []},
+                  'tuple_dict': {'injected': (), 'expected': {}}}[variant['empty']]
         self.w, self.error = None, None
+        self.w_second, self.error_second = None, None
         try:
             if variant['api'] == 'wraps':
-                self.w = funcutils.wraps(f, **kw)(wrapper)
+                decorator = funcutils.wraps(f, **kw)
+                self.w = decorator(wrapper)
             else:
                 self.w = funcutils.update_wrapper(wrapper, f, **kw)
         except Hang:
             raise
         except Exception as e:
             self.error = e
+        if (self.error is None and variant['api'] == 'wraps' and variant.get('iform') != 'iter'
+                and len(names['pos']) + len(names['kwo']) <= SECOND_LIMIT):
+            # the decorator wraps() returned is applied to a second wrapper (an iterator given as injected is
+            # spent by the first application: what the second does then is not stated)
+            try:
+                self.w_second = decorator(lambda *a, **k: None)
+            except Hang:
+                raise
+            except Exception as e:
+                self.error_second = e
         self.sig_f = names['sig']
         self.nontrivial_sig = bool(names['defaults']) or bool(names['kwo']) or not self.plain
 
@@ -538,7 +708,7 @@ class Applied:
                     what = 'call:rejects a call the original accepts'
                 elif got[0] != 'ok':
                     what = 'call:outcome'
-                elif got[1] != want[1] or n_entered != 1:
+                elif not same(got[1], want[1]) or n_entered != 1:
                     what = 'call:wrapped function saw different arguments'
             else:
                 if got[0] == 'ok':
@@ -561,7 +731,7 @@ class Applied:
                 got_b = bound(ref, ra, rk)
                 got = ('forwarded', list(ra), rk, got_b)
                 if got_b is None or set(got_b) != set(want_b) or any(
-                        not (got_b[k] is want_b[k] or got_b[k] == want_b[k]) for k in want_b):
+                        not same(got_b[k], want_b[k]) for k in want_b):
                     what = 'call:wrapper received different arguments'
         else:
             if got[0] == 'ok' or n_entered:
@@ -584,7 +754,8 @@ def check_variant(t, spec, variant, f, names, part, calls=None):
     base_case = {'part': part, 'spec': spec, 'variant': variant}
     inj = variant.get('injected')
     if isinstance(inj, str):
-        shape = shape.replace('injected', 'injected(%s)' % param_class(names, inj))
+        shape = shape.replace('injected', 'injected%s(%s)' % ('-str' if variant.get('iform') == 'str' else '',
+                                                               param_class(names, inj)))
     elif inj:
         shape = shape.replace('injected-list', 'injected-list(%s)' % list_class(names, inj))
     f_before = fn_snapshot(f)
@@ -604,6 +775,8 @@ def check_variant(t, spec, variant, f, names, part, calls=None):
 
     t.count(nontrivial=ap.nontrivial_sig, sample=base_case)
     t.add('ways_of_wrapping:' + variant_shape(variant))
+    if variant.get('iform') or variant.get('empty'):
+        t.add('argument_form:' + (variant.get('iform') or 'empty-' + variant['empty']))
     if ap.error is not None:
         if ap.unplaceable():
             t.add('expected_without_default_after_positional_defaults:raised')
@@ -636,6 +809,23 @@ def check_variant(t, spec, variant, f, names, part, calls=None):
         return          # after a signature disagreement every call comparison is noise
     if ap.unplaceable():
         t.add('expected_without_default_after_positional_defaults:placed')
+    # ---- the same decorator applied a second time gives the same own signature
+    if ap.error_second is not None:
+        bad('second-application:raised', 'a function', 'raised %s' % type(ap.error_second).__name__)
+    elif ap.w_second is not None:
+        try:
+            own2 = inspect.signature(ap.w_second, follow_wrapped=False)
+        except Hang:
+            raise
+        except Exception as e:
+            bad('second-application:signature:not introspectable', str(own), 'raised %s' % type(e).__name__)
+        else:
+            problem2 = sig_difference(own2, params, ap.sig_f.return_annotation)
+            if problem2 is None and own2 != ref:
+                problem2 = 'signature inequality'
+            if problem2 is not None:
+                bad('second-application:signature:' + problem2, ap.describe(params), str(own2))
+        t.add('second_applications')
     # ---- metadata
     for attr in ('__name__', '__doc__', '__module__'):
         want, got = getattr(f, attr), getattr(w, attr, '<missing>')
@@ -730,10 +920,16 @@ def run(ctx):
     inputs.run_shards(ctx, make_shard_fn(ctx.tier, 'metadata'), chunks(meta, 4), part='metadata',
                       rule='functions without docstring / empty / one-line / multi-line docstring; def, async def, '
                            'annotated def, lambda; plain wraps and update_wrapper; all call shapes')
+    dflt = defaults_family(ctx.tier)
+    inputs.run_shards(ctx, make_shard_fn(ctx.tier, 'defaults'), chunks(dflt, 6), part='defaults',
+                      rule='defaulted positional parameters take every assignment of values from a pool of defaults '
+                           'that compare equal without being the same (1, 1.0, True, two separate []) and from a pool '
+                           'of falsy values (None, 0, False, \'\'); plain, every injected name and pair of names, '
+                           'expected with an equal default / without default; all call shapes')
     cov = ctx.coverage
     cov['rule'] = RULE
     cov['exhaustive'] = True
-    cov['functions'] = len(specs) + len(meta)
+    cov['functions'] = len(specs) + len(meta) + len(dflt)
     bounds.update({
         'call_shapes': 'positional arguments 0..n_pos(+added)+2 x every subset of keyword names from '
                        '(positional-or-keyword names + keyword-only names + added names + one unknown name)',
@@ -749,7 +945,19 @@ def run(ctx):
                             + ('; injected=[p] combined with expected; two added parameters and the combination '
                                'only for functions with <= %d named parameters' % EXTRA_LIMIT
                                if not ctx.quick() else ''),
-        'metadata_functions': len(meta)})
+        'metadata_functions': len(meta),
+        'metadata_wrapped_function_decorated_before': list(PRIORS),
+        'injected_single_name_forms': '[p] with all call shapes; p as str: signature and metadata, call shapes for '
+                                      '<= %d named parameters' % LIST_FORMS_LIMIT,
+        'explicit_empty_arguments(metadata part)': list(EMPTY_FORMS),
+        'second_application_of_the_decorator': 'functions with <= %d named parameters, every wraps(...) variant '
+                                               'except iterator-valued injected: own signature of the second product'
+                                               % SECOND_LIMIT,
+        'defaults_part': {'functions': len(dflt), 'positional': [2, 3 if ctx.quick() else 4],
+                          'defaulted_positional': '2..n_pos',
+                          'pools': {k: repr(v()) for k, v in POOLS.items() if k.endswith('+') != ctx.quick()},
+                          'keyword_only_with_default': '0..1 (quick: pool "falsy" only without)',
+                          'var_keyword': [0] if ctx.quick() else '0..1 for <= 3 positional parameters, else 0'}})
     cov['bounds'] = bounds
     ctx.assumptions += [
         'parameter names are plain identifiers that do not collide with the names the generated wrapper uses '
@@ -764,7 +972,14 @@ def run(ctx):
         'the statement fixes name and default of a parameter added with expected, not its kind or position: '
         'positional-or-keyword or keyword-only at any position is accepted; where appending a parameter without '
         'default after defaulted positional parameters has no valid Python signature, raising is accepted too',
-        'own signature equality (inspect.Signature ==) compares names, kinds, order, defaults and annotations',
+        'own signature equality (inspect.Signature ==) compares names, kinds, order, defaults and annotations; '
+        'defaults are additionally compared strictly: the same object, or an equal value of the same type for '
+        'int/float/bool/complex/str/bytes/None ("the same default attached to the same parameter" cannot mean 1.0 '
+        'where the function has 1, or another list than the one the function mutates)',
+        'a wrapped function that was decorated before (has __wrapped__) is compared by its own signature '
+        '(follow_wrapped=False): that is what its calls are checked against',
+        'the decorator returned by wraps() is a product of wraps each time it is applied: the second application '
+        'must give the same own signature; explored for functions with <= 2 named parameters, not for iterator-valued injected (spent by the first use)',
         'positional-only parameters are outside the statement and not generated',
     ]
 
